@@ -8,7 +8,9 @@ import (
 	"errors"
 	"fmt"
 	"net"
+	"reflect"
 	"sync"
+	"sync/atomic"
 	"testing"
 	"testing/synctest"
 	"time"
@@ -83,10 +85,24 @@ type vfC19Case struct {
 	Side  string // c | s | both
 	I, J  int
 	Idx   int
+	// Forward: before the pre-export traffic the exported side's send counter is advanced to this value (a
+	// connection that has been running for a long time; sequence numbers have 48 bits). 0: untouched.
+	Forward uint64
+	// Move: the resumed connection speaks from another UDP address (only where the untouched peer receives records
+	// with a connection ID and can therefore follow)
+	Move bool
 }
 
 func (c vfC19Case) ID() string {
-	return fmt.Sprintf("%s|cid%d|srtp%v|alpn%v|export=%s|i=%d,j=%d", c.Suite, c.CID, c.SRTP, c.ALPN, c.Side, c.I, c.J)
+	id := fmt.Sprintf("%s|cid%d|srtp%v|alpn%v|export=%s|i=%d,j=%d", c.Suite, c.CID, c.SRTP, c.ALPN, c.Side, c.I, c.J)
+	if c.Forward > 0 {
+		id += fmt.Sprintf("|forward=%d", c.Forward)
+	}
+	if c.Move {
+		id += "|moved"
+	}
+
+	return id
 }
 
 type vfC19Peer struct {
@@ -167,6 +183,7 @@ func vfC19Snapshot(c *Conn) (vfC19Snap, State, bool) {
 }
 
 type vfC19World struct {
+	moves  int
 	n      *vfNet
 	c, s   *vfC19Peer
 	seq    int
@@ -259,6 +276,10 @@ func (w *vfC19World) send(from *vfC19Peer, tag string) (string, []byte) {
 
 // export replaces p's Conn by one resumed from its marshalled state (optionally altered by mutate).
 func (w *vfC19World) export(p *vfC19Peer, mutate func([]byte) []byte) (before, after vfC19Snap, stage string, err error) {
+	return w.exportMove(p, mutate, false)
+}
+
+func (w *vfC19World) exportMove(p *vfC19Peer, mutate func([]byte) []byte, move bool) (before, after vfC19Snap, stage string, err error) {
 	before, st, ok := vfC19Snapshot(p.conn)
 	if !ok {
 		return before, after, "ConnectionState", errors.New("no state")
@@ -281,6 +302,10 @@ func (w *vfC19World) export(p *vfC19Peer, mutate func([]byte) []byte) (before, a
 	var st2 State
 	if err = st2.UnmarshalBinary(raw); err != nil {
 		return before, after, "UnmarshalBinary", err
+	}
+	if move {
+		w.moves++
+		p.ep = w.n.Endpoint(p.name, fmt.Sprintf("10.0.9.%d:%d", w.moves, 4000+w.moves))
 	}
 	p.sock = &vfDetach{ep: p.ep}
 	nc, err := ResumeWithOptions(&st2, p.sock, p.raddr)
@@ -349,6 +374,23 @@ func vfC19Run(t *testing.T, res *vfResult, c vfC19Case) {
 		return
 	}
 	defer w.close()
+	if c.Forward > 0 {
+		for _, x := range map[string][]*vfC19Peer{"c": {w.c}, "s": {w.s}, "both": {w.c, w.s}}[c.Side] {
+			cm := vfCommon(x.conn)
+			ep := cm.LocalEpoch()
+			x.conn.lock.Lock()
+			for len(cm.LocalSequenceNumber) <= int(ep) {
+				cm.LocalSequenceNumber = append(cm.LocalSequenceNumber, 0)
+			}
+			atomic.StoreUint64(&cm.LocalSequenceNumber[ep], c.Forward)
+			x.conn.lock.Unlock()
+			if msg, _ := w.send(x, "pre-forwarded"); msg != "" {
+				res.Count("pre_export_traffic_failed", 1)
+
+				return
+			}
+		}
+	}
 	for k := 0; k < c.I; k++ {
 		if msg, _ := w.send(w.c, "pre"); msg != "" {
 			res.Count("pre_export_traffic_failed", 1)
@@ -378,7 +420,11 @@ func vfC19Run(t *testing.T, res *vfResult, c vfC19Case) {
 		}
 		cidY := vfCIDLenOf(y.conn)
 		mark := w.n.LogLen()
-		before, after, stage, err := w.export(x, nil)
+		move := c.Move && vfCIDLenOf(y.conn) > 0
+		if move {
+			res.Count("exports_resumed_from_another_address", 1)
+		}
+		before, after, stage, err := w.exportMove(x, nil, move)
 		if err != nil {
 			violate("export-failed:"+stage, fmt.Sprintf("exporting %s at stage %s: %v", x.name, stage, err))
 
@@ -590,7 +636,7 @@ func vfC19StructEdits() []vfC19Edit {
 	}
 	for _, v := range []uint64{0, 1<<48 - 1, 1 << 48, 1<<48 + 1, 1<<63 + 5, 1<<64 - 1} {
 		v := v
-		es = append(es, vfC19Edit{fmt.Sprintf("sequence=%d", v), func(s *serializedState) { s.SequenceNumber = v }})
+		es = append(es, vfC19Edit{fmt.Sprintf("sequence=%d", v), func(s *serializedState) { reflect.ValueOf(&s.SequenceNumber).Elem().SetUint(v) }})
 	}
 	for _, v := range []uint16{0, 1, 0x1301, 0xc02b, 0xc0a8, 0xffff} {
 		v := v
@@ -676,6 +722,24 @@ func TestVF_C19(t *testing.T) {
 						idx++
 					}
 				}
+			}
+		}
+	}
+	// long-running connections (send counter beyond 2^32, 2^40, near the top) and resumption from another address
+	for k, s := range []string{"ECDSA-GCM128", "PSK-CCM8", "ECDSA-CBC", "ECDSA-CHACHA"} {
+		for si, side := range []string{"c", "s", "both"} {
+			for fi, fwd := range []uint64{1<<32 + 7, 1<<40 + 3, 1<<47 + 11} {
+				if !vfThorough() && (k+si+fi)%2 != 0 {
+					continue
+				}
+				cases = append(cases, vfC19Case{Suite: s, CID: []int{-1, 4, 0}[(k+si)%3], Side: side, I: 1, J: 1, Idx: idx, Forward: fwd})
+				idx++
+			}
+		}
+		for _, cid := range []int{4, 0} {
+			for _, side := range []string{"c", "s"} {
+				cases = append(cases, vfC19Case{Suite: s, CID: cid, Side: side, I: 1, J: 1, Idx: idx, Move: true, SRTP: k%2 == 0})
+				idx++
 			}
 		}
 	}
